@@ -312,7 +312,7 @@ func fixedC14(r *Rec, tier string, shard, nshards int) []*Case {
 			// also a pair of distinct accepted tokens alternating
 			for _, v := range vocab {
 				for _, n := range sizes {
-					for _, tail := range []string{" @", " " + v + "@", ""} {
+					for _, tail := range []string{" @", " " + v + "@", "", "  " + v + " @", "  " + v, " \t" + v + " @"} {
 						val := strings.TrimSpace(rep(v+" ", n)) + tail
 						c := &Case{Kind: "handler", Strs: []BStr{BStr(prop), BStr(val)}}
 						res := timedCall(tokenBudget, func() string { h(val); return "" })
